@@ -39,6 +39,7 @@ class Ctx:
         self.obs = []
         self._ord = {}
         self.notes = []
+        self.floors = []
         self.rules = {}      # rule id -> description
         self.not_decided = ''
         self.fns_analysed = set()
@@ -72,11 +73,19 @@ class Ctx:
         return o
 
     def floor(self, rule, what, count, minimum):
-        """fail closed when a rule matches fewer trigger instances than were counted on the
-        pinned tree: a rule that silently matches nothing must not pass."""
+        """vacuity guard. `minimum` is the number of trigger instances confirmed by hand on the
+        pinned tree. A rule that matches (almost) nothing must not pass, so the check fails closed
+        when fewer than half of them (at least one) are found. Between half and the confirmed
+        count the rule still decides every instance it found — a refactor that merges call sites
+        into a helper lowers the count without changing behaviour — and the shortfall is recorded
+        in the evidence."""
+        hard = max(1, (minimum + 1) // 2)
+        self.floors.append({'rule': rule, 'what': what, 'found': count, 'confirmed_on_pinned_tree': minimum, 'fail_closed_below': hard})
+        if count < hard:
+            raise CheckError('%s: %s: found %d instance(s), %d were confirmed on the pinned tree and fewer than %d is treated as a lost anchor (a rule that matches nothing must not pass)'
+                             % (rule, what, count, minimum, hard))
         if count < minimum:
-            raise CheckError('%s: %s: found %d instance(s), floor is %d (a rule that matches nothing must not pass)'
-                             % (rule, what, count, minimum))
+            self.note('%s: %s: found %d, %d were confirmed on the pinned tree — every instance found was decided; sites may have been merged or removed' % (rule, what, count, minimum))
 
 
 def load_known():
@@ -217,7 +226,7 @@ def run_property(prop, tier='quick', facts_dir=None, quiet=False, write=True):
         'discharged': len(ctx.obs) - len(failed),
         'evaluations': len(ctx.obs),
         'distinct_nontrivial': len(nontrivial),
-        'rule': 'one obligation per (rule, function, construct, ordinal) discovered in the exported MIR; all are distinct by key; an obligation is non-trivial when a concrete construct (call site, aggregate, loop, field) was found and tested against the rule — obligations with no construct are not emitted at all, a rule with fewer constructs than its floor fails closed',
+        'rule': 'one obligation per (rule, function, construct, ordinal) discovered in the exported MIR; all are distinct by key; an obligation is non-trivial when a concrete construct (call site, aggregate, loop, field) was found and tested against the rule — obligations with no construct are not emitted at all, a rule that finds fewer than half of the constructs confirmed by hand on the pinned tree (coverage.floors) fails closed',
         'samples': samples,
         'per_rule': by_rule,
         'functions_analysed': len(ctx.fns_analysed),
@@ -227,6 +236,7 @@ def run_property(prop, tier='quick', facts_dir=None, quiet=False, write=True):
         'exhaustive': True,
         'known_findings_hit': [o.key for o in hits],
         'notes': ctx.notes,
+        'floors': ctx.floors,
     }
     if tier == 'thorough' and extra_thorough:
         coverage['thorough'] = extra_thorough
